@@ -115,6 +115,9 @@ func DecFaults(s string) ([]Fault, error) {
 type Event struct {
 	Op   string
 	Name string
+	// Aux: for a "provide" event, whether a regular file exists at the path
+	// the provider returned.
+	Aux bool
 }
 
 var errInjected = errors.New("injected fault")
@@ -137,7 +140,7 @@ func (t *Tracer) hook(op, name string) error {
 	key := op + "\x00" + name
 	k := t.counts[key]
 	t.counts[key] = k + 1
-	t.Events = append(t.Events, Event{op, name})
+	t.Events = append(t.Events, Event{Op: op, Name: name})
 	for _, f := range t.Faults {
 		if f.Op == op && f.Name == name && f.K == k {
 			switch f.Act {
@@ -205,8 +208,15 @@ type tracingProvider struct {
 }
 
 func (p *tracingProvider) Provide(path string, digest []byte) (string, error) {
-	p.t.Events = append(p.t.Events, Event{"provide", Leaf(path)})
-	return p.inner.Provide(path, digest)
+	sp, err := p.inner.Provide(path, digest)
+	exists := false
+	if err == nil {
+		if fi, lerr := os.Lstat(sp); lerr == nil && fi.Mode().IsRegular() {
+			exists = true
+		}
+	}
+	p.t.Events = append(p.t.Events, Event{Op: "provide", Name: Leaf(path), Aux: exists})
+	return sp, err
 }
 
 // Case is a prepared scenario: the real directory exists, the cache is real.
@@ -230,6 +240,15 @@ type Case struct {
 	HonestStaging bool
 	// StoreDir is the root of the content-addressed store, when one is used.
 	StoreDir string
+	// RealXDev: the staging area is on another device than the root, so every
+	// rename of an existing staged file into the root really fails with EXDEV.
+	RealXDev bool
+	// Cleanup removes what the case created outside its scratch directory.
+	Cleanup func()
+	// release closes the files held open since the tree was materialised (so
+	// that the inode numbers of files deleted by edits are not recycled by
+	// files created during the transition); Run calls it when it is done.
+	release func()
 }
 
 func encPaths(ps []string) string {
@@ -561,6 +580,9 @@ func Run(c *Case) (*Outcome, error) {
 	cacheField := EncCache(c.Cache, c.Canon)
 	release := holdOpen(holdPaths...)
 	defer release()
+	if c.release != nil {
+		defer c.release()
+	}
 
 	// Run the real transition under the fault hook.
 	ctx, cancel := context.WithCancel(context.Background())
@@ -574,6 +596,36 @@ func Run(c *Case) (*Outcome, error) {
 		filesystem.Mode(c.Cfg.FileMode), filesystem.Mode(c.Cfg.DirMode), nil, false, &tracingProvider{c.Provider, tracer})
 	filesystem.VerifSetFaultHook(nil)
 	o.Events = tracer.Events
+	// With the staging area on another device, the first rename of every
+	// existing staged file returned EXDEV by itself: tell the model.
+	lineFaults := c.Faults
+	if c.RealXDev {
+		counts := map[string]int{}
+		for j, e := range o.Events {
+			if e.Op == "provide" {
+				continue
+			}
+			key := e.Op + "\x00" + e.Name
+			k := counts[key]
+			counts[key] = k + 1
+			if e.Op != "rename" || j == 0 {
+				continue
+			}
+			prev := o.Events[j-1]
+			if prev.Op != "provide" || prev.Name != e.Name || !prev.Aux {
+				continue
+			}
+			injected := false
+			for _, f := range c.Faults {
+				if f.Op == "rename" && f.Name == e.Name && f.K == k {
+					injected = true
+				}
+			}
+			if !injected {
+				lineFaults = append(append([]Fault{}, lineFaults...), Fault{Op: "rename", Name: e.Name, K: k, Act: 'x'})
+			}
+		}
+	}
 
 	// The tree afterwards, the remaining staged files, a fresh scan.
 	if o.F2, err = ReadTree(c.Root, c.Canon, false); err != nil {
@@ -642,7 +694,7 @@ func Run(c *Case) (*Outcome, error) {
 	hseen := map[string]bool{}
 	var hitems []string
 	for _, f := range files {
-		k := hx.Hex(f.Data)
+		k := EncData(f.Data)
 		if !hseen[k] {
 			hseen[k] = true
 			hitems = append(hitems, k+">"+hx.Hex(Digest(f.Data)))
@@ -658,7 +710,7 @@ func Run(c *Case) (*Outcome, error) {
 		stagedField = strings.Join(stagedItems, ";")
 	}
 	o.Line = strings.Join([]string{c.Cfg.Enc(), cacheField, Enc(o.F1), stagedField, hx.EncChangesOrdered(c.Plan),
-		EncFaults(c.Faults), orderField, hashField, c.encMeta()}, " ")
+		EncFaults(lineFaults), orderField, hashField, c.encMeta()}, " ")
 
 	res := make([]string, len(o.Results))
 	for i, r := range o.Results {
@@ -850,6 +902,14 @@ func OracleC09(c *Case, o *Outcome) string {
 	return ""
 }
 
+func shortData(d []byte) string {
+	s := EncData(d)
+	if len(s) > 80 {
+		s = s[:80] + "…"
+	}
+	return s
+}
+
 // stripExec returns a copy of the entry with every executability flag cleared.
 func stripExec(e *core.Entry) *core.Entry {
 	if e == nil {
@@ -904,7 +964,7 @@ func OracleC10(c *Case, o *Outcome) string {
 				rec(ch.Path, ch.New)
 			}
 			if !ok {
-				verdict = fmt.Sprintf("class=wrong-content temporary %q holds unplanned content %x", p, n.Data)
+				verdict = fmt.Sprintf("class=wrong-content temporary %q holds unplanned content %s", p, shortData(n.Data))
 			}
 			return
 		}
@@ -922,7 +982,7 @@ func OracleC10(c *Case, o *Outcome) string {
 		}
 		_ = rel
 		if want == nil {
-			verdict = fmt.Sprintf("class=wrong-content new file %q has content %x (sha1 %x) that no transition planned", p, n.Data, sum)
+			verdict = fmt.Sprintf("class=wrong-content new file %q has content %s (sha1 %x) that no transition planned", p, shortData(n.Data), sum)
 		}
 	})
 	return verdict
